@@ -60,6 +60,14 @@ fn handle(line: &str, oracle: bool) -> String {
                 _ => bad(),
             }
         }
+        (["SKIPPARSE", k, w, off, skip, len, h], o) => {
+            match (w.parse::<usize>(), off.parse::<usize>(), skip.parse::<usize>(), len.parse::<usize>(), unhex(h)) {
+                (Ok(w), Ok(off), Ok(skip), Ok(len), Some(d)) => l2::with_skip(skip, || {
+                    if o { l2::oracle_parse(k, w, off + skip, len, &d) } else { l2::op_parse(k, w, off + skip, len, &d) }
+                }),
+                _ => bad(),
+            }
+        }
         (["DFDEC", id, len, p], o) => match (len.parse::<usize>(), p.parse::<u64>()) {
             (Ok(len), Ok(p)) => if o { l3::oracle_dfdec(id, len, p) } else { l3::op_dfdec(id, len, p) },
             _ => bad(),
